@@ -27,6 +27,8 @@
 //!   batch/valid-query-error, batch/failing-query-ok   error response for a valid query / success for a failing one
 //!   batch/malformed-response          a response is not `{request, …}`
 //!   pipeline/sibling-responses-lost   fewer responses than expanded queries (element-wise count with the real plugins)
+//!   pipeline/query-unanswered         a query got no response at all
+//!   search/unknown-origin-accepted    an out-of-range origin id (no destination) is answered with a success
 //!   pipeline/request-not-echoed       no response of a query carries it as `request`
 //!   pipeline/request-altered          an object query's fields are not all present in its response's `request`
 //!   inject/non-object, grid/degenerate   rekeyed panic / timeout on the historical witnesses
@@ -918,8 +920,12 @@ fn failing_query(fx: &Fixture, rng: &mut Rng) -> GenQ {
         }
         4 if direct => {
             let k = if rng.chance(1, 2) { okey } else { dkey };
-            m.insert(k.into(), junk(rng));
-            ("ill_typed_od", Expect::Err)
+            let v = junk(rng);
+            if k == okey && v.is_u64() {
+                unknown_origin = true; // a well-typed id after all, only out of range
+            }
+            m.insert(k.into(), v);
+            ("ill_typed_od", if fx.edge_oriented { Expect::Any } else { Expect::Err })
         }
         5 if direct && !fx.edge_oriented => {
             m.insert(okey.into(), json!(o));
@@ -1405,6 +1411,10 @@ fn run_case(ctx: &mut Ctx, fx: &Fixture, persist_cfg: bool, gens: &[GenQ], plans
                 ctx.fail(first_idx, "batch/malformed-response", format!("response without request: {}", clip(&r.to_string())));
             }
         }
+        // every query is answered
+        if resp.is_empty() {
+            ctx.fail(first_idx, "pipeline/query-unanswered", format!("query {} got no response at all under {}", clip(&g.q.to_string()), fx.label));
+        }
         // exactly one response per expanded query
         if let Some(ideal) = rep.ideal[i] {
             if resp.len() < ideal {
@@ -1744,6 +1754,11 @@ pub fn run(ctx: &mut Ctx, profile: Profile) -> &'static str {
             gq(json!([{"origin_vertex": 1, "destination_vertex": 2}]), Expect::Any, "non_object", None),
         ];
         run_case(ctx, fx, *pc, &b, simple(vec![None, Some(2)], 5), "corpus_non_object", 20);
+        // an out-of-range origin id without destination (oracle finding search/unknown-origin-accepted)
+        let mut g = gq(json!({"origin_vertex": 99999}), Expect::Err, "unknown_id", None);
+        g.fail_key = Some("search/unknown-origin-accepted");
+        let b = vec![g, gq(json!({"origin_vertex": 99999, "destination_vertex": 1}), Expect::Err, "unknown_id", None), gq(json!({"origin_vertex": 1, "destination_vertex": 99999}), Expect::Err, "unknown_id", None)];
+        run_case(ctx, fx, *pc, &b, simple(vec![None], 3), "corpus_unknown_origin", 20);
         // S4: per-run parallelism 0
         let b = vec![gq(json!({"origin_vertex": 0, "destination_vertex": 3}), Expect::Ok, "valid_route", None), gq(json!(5), Expect::Any, "non_object", None)];
         run_case(ctx, fx, *pc, &b, simple(vec![Some(0)], 2), "corpus_parallelism_0", 20);
@@ -1778,6 +1793,17 @@ pub fn run(ctx: &mut Ctx, profile: Profile) -> &'static str {
             run_case(ctx, fx, *pc, &b, simple(vec![None], 2), "corpus_degenerate_grid", 20);
         }
     }
+    if let Some(i) = find("grid") {
+        let (fx, pc) = &fixtures[i];
+        // the empty array is flattened away (finding pipeline/query-unanswered); a nested array is a batch in a query
+        let b = vec![
+            gq(json!([]), Expect::Any, "non_object", None),
+            gq(json!({"origin_vertex": 0, "destination_vertex": 3}), Expect::Ok, "valid_route", None),
+            gq(json!([{"origin_vertex": 1, "destination_vertex": 2}, {"origin_vertex": 2, "destination_vertex": 1}]), Expect::Any, "non_object", None),
+            gq(json!([[]]), Expect::Any, "non_object", None),
+        ];
+        run_case(ctx, fx, *pc, &b, simple(vec![None, Some(2)], 4), "corpus_array_query", 20);
+    }
     if let Some(i) = find("grid+inject_no_overwrite") {
         let (fx, pc) = &fixtures[i];
         // S1: the second child is fine, the first one makes the inject plugin fail
@@ -1807,8 +1833,8 @@ pub fn run(ctx: &mut Ctx, profile: Profile) -> &'static str {
 
     // ---- generated batches ----
     let n_cases = match profile {
-        Profile::C06 => ctx.n(120, 1500),
-        Profile::C12 => ctx.n(260, 4000),
+        Profile::C06 => ctx.n(700, 6000),
+        Profile::C12 => ctx.n(2500, 30000),
     };
     for k in 0..n_cases {
         let mut rng = Rng::for_case(ctx.seed, tag, k as u64);
